@@ -29,13 +29,15 @@ type txnShape struct {
 
 func runC18(c *core.Ctx) {
 	runFixtures(c, "locks", "drop")
-	c.Explain("Structural clauses of C18 decided from source for every Go-level keyvalue.Transaction implementation found by type (mem.transaction, keyvalue.unsafeSerialTransaction): (R18.1) on every path through Get/GetHandler/Set/SetHandler exactly one result is recorded and its Op is the id returned; (R18.2) every path allocates exactly one id, including the aborted path; (R18.3) every store access in an op method is dominated by the not-aborted edge of an abort check; (R18.4) the handler's error flows into the recorded result's Err; (R18.5) a transaction type whose constructor returns holding a mutex releases it on every path of Commit and of Abort, and each release is idempotent (sync.Once) so Abort followed by Commit cannot unlock twice; (R18.6) in package keyvalue every successfully begun transaction is followed by Commit or Abort on every path (paths that fail only because a callee's ValidPath gate rejected the name are pruned, assumption A7); (R18.7) Commit returns the recorded results in id order (append order, or index-by-id). NOT claimed: isolation between concurrent transactions, that a Get reflects earlier Sets (values), liveness.")
+	c.Explain("Structural clauses of C18 decided from source for every Go-level keyvalue.Transaction implementation found by type (mem.transaction, keyvalue.unsafeSerialTransaction): (R18.1) on every path through Get/GetHandler/Set/SetHandler exactly one result is recorded and its Op is the id returned; (R18.2) every path allocates exactly one id, including the aborted path; (R18.3) every store access in an op method is dominated by the not-aborted edge of an abort check; (R18.4) the handler's error flows into the recorded result's Err; (R18.5) a transaction type whose constructor returns holding a mutex releases it on every path of Commit and of Abort, and each release is idempotent (sync.Once) so Abort followed by Commit cannot unlock twice; (R18.6) in package keyvalue every successfully begun transaction is followed by Commit or Abort on every path (paths that fail only because a callee's ValidPath gate rejected the name are pruned, assumption A7); (R18.7) Commit returns the recorded results in id order (append order, or index-by-id); (R18.8) the in-memory store's transaction constructor holds the store mutex at every successful return (a mode-dependent early return without the lock lets that transaction observe another's partial effects); (R18.9) a transaction's cancel function is invoked only by its Abort and Commit methods — an operation that aborts on its own turns one store error into 'context canceled' for the whole transaction and loses every result. NOT claimed: isolation between concurrent transactions beyond R18.8, that a Get reflects earlier Sets (values), liveness.")
 	c.Assume("A6: partial correctness — 'on every path' means every path that returns",
 		"A7: inside keyvalue.FS a name that reaches setFileTxn was validated by the caller chain (C04/R04.1 checks the gates); paths on which only that validation fails are not required to end the transaction")
 	c.RuleDoc("R18.1", "exactly one result recorded per op call on every path; recorded Op == returned id")
 	c.RuleDoc("R18.2", "exactly one id allocated per op call on every path (incl. aborted)")
 	c.RuleDoc("R18.3", "store access dominated by not-aborted edge")
 	c.RuleDoc("R18.4", "handler error flows into recorded OpResult.Err")
+	c.RuleDoc("R18.8", "a constructor that returns transactions holding the store mutex does so on every successful return")
+	c.RuleDoc("R18.9", "a transaction's cancel function is invoked only by Abort and Commit")
 	c.RuleDoc("R18.5", "store mutex released on all paths of Commit/Abort, idempotently")
 	c.RuleDoc("R18.6", "begin/end pairing of transactions in package keyvalue")
 	c.RuleDoc("R18.7", "Commit returns results in id order")
@@ -65,6 +67,7 @@ func runC18(c *core.Ctx) {
 			r18Ops(c, sh)
 			r18Release(c, sh)
 			r18Order(c, sh)
+			r18WhoAborts(c, sh)
 		}
 		if goLevel < 2 {
 			c.Hard("anchor: expected at least 2 Go-level Transaction implementations, found %d", goLevel)
@@ -78,6 +81,8 @@ func runC18(c *core.Ctx) {
 	c.Floor("R18.3", 4)
 	c.Floor("R18.4", 4)
 	c.Floor("R18.5", 2)
+	c.Floor("R18.8", 1)
+	c.Floor("R18.9", 4)
 	c.Floor("R18.6", 4)
 	c.Floor("R18.7", 2)
 }
@@ -465,6 +470,7 @@ func r18Release(c *core.Ctx, sh *txnShape) {
 		c.OKTrivial("R18.5", tk+"|no-lock-held-at-construction", "-", "constructor does not return holding a mutex; nothing to release")
 		return
 	}
+	r18CtorHoldsLock(c, p, sh.named, "R18.8")
 	var classes []string
 	for k := range held {
 		classes = append(classes, k)
@@ -783,4 +789,77 @@ func endsTxn(fn *ssa.Function, prm *ssa.Parameter) bool {
 		},
 	})
 	return all
+}
+
+// r18CtorHoldsLock (R18.8 / R15.4): a constructor that hands out transactions holding the store mutex does so on
+// every successful return — isolation between transactions is unconditional.
+func r18CtorHoldsLock(c *core.Ctx, p *load.Program, named *types.Named, rule string) {
+	tk := typeKey(named)
+	for _, fn := range p.SrcFuncs() {
+		if !constructs(fn, named) || len(heldAtReturn(fn)) == 0 {
+			continue
+		}
+		ls := ssax.Locksets(fn, true, nil)
+		eidx := ssax.ErrorResultIndex(fn.Signature)
+		key := tk + "|" + fname(fn) + "|every-transaction-holds-the-lock"
+		bad := ""
+		for _, r := range ssax.Returns(fn) {
+			if eidx >= 0 && eidx < len(r.Results) && !ssax.IsNilConst(r.Results[eidx]) {
+				continue // failing construction
+			}
+			if len(ls[r]) == 0 {
+				bad = p.Pos(r.Pos())
+			}
+		}
+		c.Check(bad == "", rule, key, p.Pos(fn.Pos()), "every successful return of the constructor holds the store mutex",
+			fmt.Sprintf("%s returns a transaction at %s without holding the store mutex that its other returns hold: such a transaction runs between the operations of an open read-write transaction and observes its partial effects (e.g. a rename's new name already set, the old one not yet deleted)", fname(fn), bad))
+	}
+}
+
+// r18WhoAborts (R18.9, who-may-call): the cancel function kept in a transaction (a context.CancelFunc field) is
+// invoked only by the type's Abort and Commit methods. An operation method that cancels on its own (say, after a
+// failing store.Set) makes Commit report 'context canceled' and drop every recorded result.
+func r18WhoAborts(c *core.Ctx, sh *txnShape) {
+	p := sh.p
+	tk := typeKey(sh.named)
+	var names []string
+	for n := range sh.methods {
+		names = append(names, n)
+	}
+	sort.Strings(names)
+	for _, mn := range names {
+		fn := sh.methods[mn]
+		recv := recvParam(fn)
+		if recv == nil || fn.Blocks == nil {
+			continue
+		}
+		calls := 0
+		var first ssa.Instruction
+		ssax.InstrsDeep(fn, func(_ *ssa.Function, ins ssa.Instruction) {
+			ci, ok := ins.(ssa.CallInstruction)
+			if !ok || ci.Common().IsInvoke() {
+				return
+			}
+			v := ci.Common().Value
+			if !strings.HasSuffix(typeString(v.Type()), "context.CancelFunc") {
+				return
+			}
+			if _, _, isField := ssax.FieldLoad(v); !isField {
+				return
+			}
+			calls++
+			if first == nil {
+				first = ins
+			}
+		})
+		key := tk + "." + mn + "|cancel-calls"
+		switch {
+		case mn == "Abort" || mn == "Commit":
+			c.OK("R18.9", key, p.Pos(fn.Pos()), fmt.Sprintf("%d call(s) of the cancel function: this method ends the transaction", calls))
+		case calls == 0:
+			c.OK("R18.9", key, p.Pos(fn.Pos()), "does not cancel the transaction")
+		default:
+			c.Bad("R18.9", key, p.Pos(first.Pos()), fmt.Sprintf("%s cancels the transaction itself: only Abort and Commit may end it — after this call every later operation is skipped and Commit returns 'context canceled' without the per-call results, so the store's actual error and all other results are lost", fname(fn)))
+		}
+	}
 }
